@@ -48,9 +48,9 @@ CHECKS = {
          "C11_captured_exactly / C11_dot_output_is_previous / C11_name_characterwise / C11_name_shape / C11_dependants_see_it for all tasks, names, outputs, graphs and schedules. Tied to the code by every printable ASCII character in names, random names x exportAs x commands x variations x stdout/stderr chunks (LF CR TAB quotes $ % ` { } UTF-8, empty, unterminated, 64 KiB), and random DAG pipelines in shuffled declaration order where every stage dumps its environment.",
          "Trusted: Coq kernel; transcription of execute / storeTaskOutput / Run's env merge; commands abstracted to the chunks they write; generated command shapes, coreutils env/od; Go engine taskrun, python driver. Kernel limits on environment size are outside the model (outputs <= 64 KiB). No axioms.",
          "DESIGN.md section 6 C11", "taskrun"),
- "C12": ("Coq proof (partial): safety and deadlock-freedom invariants and a decreasing measure over an LTS of any number of Run and Cancel threads interleaved arbitrarily (no panic, waiting Cancel never stuck, executions bounded, nothing starts after the flag, success means every command ran); the real TaskRunner/Scheduler in a child process per scripted scenario is monitored in Coq",
+ "C12": ("Coq proof (partial): safety and deadlock-freedom invariants and a decreasing measure over an LTS of any number of Run and Cancel threads interleaved arbitrarily (no panic, waiting Cancel never stuck, executions bounded, nothing starts after the flag, success means every command ran), and over the synchronised product of that LTS with the scheduler's LTS of C01-C03 (Model/Pipe.v: a composed execution projects onto an execution of each component; nothing starts after the run is cancelled from outside or by a stage-condition error, a stage started afterwards fails, success of a stage means all its commands ran, the loop blocked in its own Cancel is never stuck, a cancelled run can return); the real TaskRunner/Scheduler in a child process per scripted scenario is monitored in Coq",
          "PARTIAL: the hand-shake logic is proved for all thread counts and interleavings; that signals really end commands, the 2 s kill grace and wall-clock bounds are observed by the harness only (0..4 tasks in flight x 0..3 waiting, Cancel before/during/between/after/twice/again after refused runs/from a stage condition error, also inside nested pipelines through the binary; a command that survives the interruption).",
-         "Trusted: Coq kernel; LTS transcription of Run's in-flight accounting and Cancel (mutex+cond as atomic steps); environment rule 'a command in progress when the context is cancelled ends'; sync/context primitives; Go engine taskrun (child process), python driver. No axioms.",
+         "Trusted: Coq kernel; LTS transcription of Run's in-flight accounting and Cancel (mutex+cond as atomic steps); the synchronisation of Model/Pipe.v (stage i's goroutine = run i, Scheduler.Cancel = flag + runner Cancel, a stage that is itself a pipeline left out); environment rule 'a command in progress when the context is cancelled ends'; sync/context primitives; Go engine taskrun (child process), python driver. No axioms.",
          "DESIGN.md section 6 C12", "taskrun-child"),
  "C13": ("Coq proof (partial): decision logic of timeouts on the TaskRun model (a job ends as a non-exit error iff longer than the timeout; an overrun fails the task also with allow_failure and nothing later starts; overrunning after hooks are cut short; within-timeout tasks behave as untimed ones; per-job timer); real timeouts against real overrunning commands measured by the harness and judged in Coq",
          "PARTIAL: C13_overrun_fails / C13_after_cut_short / C13_within_unaffected / C13_full_timeout_each / C13_expires_iff_longer hold for all tasks, timeouts and durations. That expiry terminates the process shortly afterwards is observed only: timeouts 100 ms..1 s x {sleep, busy loop, SIGINT-ignoring child} x every position of 1..3 commands x hooks/condition x allow_failure against timeout + 2 s grace + slack; through the binary the timeout as written in a configuration file (string and number forms; direct, stage, overrides, nested) and that no process of an overrunning command outlives taskctl.",
